@@ -41,6 +41,38 @@ theorem prod_sub_diag (S : Finset ℕ) (x y : ℕ → ℚ) :
     (∑ i ∈ S, x i) * (∑ j ∈ S, y j) - ∑ i ∈ S, x i * y i = ∑ p ∈ S.offDiag, x p.1 * y p.2 := by
   rw [Finset.sum_mul_sum, sum_sum_sub_diag S (fun i j => x i * y j)]
 
+/-! ### the guarded division (`np.divide(.., out=zeros, where=denominator > 0)`) -/
+
+theorem safeDiv_of_pos (x y : ℚ) (hy : 0 < y) : safeDiv x y = x / y := by
+  unfold safeDiv; rw [if_pos hy]
+
+theorem safeDiv_of_not_pos (x y : ℚ) (hy : ¬ 0 < y) : safeDiv x y = 0 := by
+  unfold safeDiv; rw [if_neg hy]
+
+/-- for a non-negative denominator the guarded division is the quotient in `ℚ` (where `x / 0 = 0`) -/
+theorem safeDiv_of_nonneg (x y : ℚ) (hy : 0 ≤ y) : safeDiv x y = x / y := by
+  rcases hy.lt_or_eq with h | h
+  · exact safeDiv_of_pos x y h
+  · rw [safeDiv_of_not_pos x y (by rw [← h]; exact lt_irrefl 0), ← h, div_zero]
+
+theorem safeDiv_nonneg (x y : ℚ) (hx : 0 ≤ x) : 0 ≤ safeDiv x y := by
+  unfold safeDiv; split
+  · rename_i h; exact div_nonneg hx h.le
+  · exact le_refl 0
+
+theorem safeDiv_zero_left (y : ℚ) : safeDiv 0 y = 0 := by
+  unfold safeDiv; split <;> simp
+
+/-- the coefficients grow with the node set (`u ≥ 0`): a hyperedge's pairs are among all pairs of nodes -/
+theorem chat_mono (u : Mat) (hu : ∀ i a, 0 ≤ u i a) (S T : Finset ℕ) (h : S ⊆ T) (a b : ℕ) :
+    chat u S a b ≤ chat u T a b := by
+  unfold chat
+  exact mul_le_mul_of_nonneg_left
+    (Finset.sum_le_sum_of_subset_of_nonneg (Finset.offDiag_mono h) fun _ _ _ => mul_nonneg (hu _ _) (hu _ _))
+    half_pos.le
+
+theorem nodesOf_subset (N : ℕ) (e : List ℕ) : nodesOf N e ⊆ range N := Finset.filter_subset _ _
+
 theorem wDen_eq (N : ℕ) (u : Mat) (a b : ℕ) : wDen N u a b = chat u (range N) a b := by
   unfold wDen chat colSum
   simp only [sumTo_eq]
@@ -73,16 +105,26 @@ theorem wNum_eq (d : Data) (u w : Mat) (a b : ℕ) :
   apply Finset.sum_congr rfl; intro e _
   rw [← prod_sub_diag (nodesOf d.N (d.edge e)) (fun i => u i a) (fun j => u j b)]; ring
 
-/-- `_w_update` as the multiplicative MM step `w_ab · (Σ_e A_e ĉ_{e,ab} / λ_e) / (b_ab + r_ab)` -/
-theorem wUpdate_eq (d : Data) (u w r : Mat) (a b : ℕ) :
+/-- `_w_update` in terms of the coefficients: the guarded quotient of `w_ab · Σ_e A_e ĉ_{e,ab} / λ_e` and `b_ab + r_ab` -/
+theorem wUpdate_def (d : Data) (u w r : Mat) (a b : ℕ) :
+    wUpdate d u w r a b
+      = safeDiv (w a b * (∑ e ∈ range d.E, d.A e * chat u (nodesOf d.N (d.edge e)) a b / poisson d.N d.K u w (d.edge e)))
+          (chat u (range d.N) a b + r a b) := by
+  unfold wUpdate
+  rw [wNum_eq, wDen_eq]
+  have h : ∑ e ∈ range d.E, mult d u w e * chat u (nodesOf d.N (d.edge e)) a b
+      = ∑ e ∈ range d.E, d.A e * chat u (nodesOf d.N (d.edge e)) a b / poisson d.N d.K u w (d.edge e) := by
+    apply Finset.sum_congr rfl; intro e _
+    unfold mult; ring
+  rw [h]
+
+/-- `_w_update` as the multiplicative MM step `w_ab · (Σ_e A_e ĉ_{e,ab} / λ_e) / (b_ab + r_ab)`
+(`u, r ≥ 0`: the denominator is `≥ 0`; where it vanishes both sides are 0) -/
+theorem wUpdate_eq (d : Data) (u w r : Mat) (hu : ∀ i a, 0 ≤ u i a) (hr : ∀ a b, 0 ≤ r a b) (a b : ℕ) :
     wUpdate d u w r a b
       = w a b * (∑ e ∈ range d.E, d.A e * chat u (nodesOf d.N (d.edge e)) a b / poisson d.N d.K u w (d.edge e))
           / (chat u (range d.N) a b + r a b) := by
-  unfold wUpdate
-  rw [wNum_eq, wDen_eq]
-  congr 2
-  apply Finset.sum_congr rfl; intro e _
-  unfold mult; ring
+  rw [wUpdate_def, safeDiv_of_nonneg _ _ (add_nonneg (chat_nonneg u hu _ _ _) (hr a b))]
 
 theorem poisson_nonneg (N K : ℕ) (u w : Mat) (hu : ∀ i a, 0 ≤ u i a) (hw : ∀ a b, 0 ≤ w a b) (e : List ℕ) :
     0 ≤ poisson N K u w e := by
@@ -94,13 +136,12 @@ theorem mult_nonneg (d : Data) (u w : Mat) (hu : ∀ i a, 0 ≤ u i a) (hw : ∀
   div_nonneg (hA e he) (poisson_nonneg _ _ u w hu hw _)
 
 theorem wUpdate_nonneg (d : Data) (u w r : Mat) (hu : ∀ i a, 0 ≤ u i a) (hw : ∀ a b, 0 ≤ w a b)
-    (hA : ∀ e < d.E, 0 ≤ d.A e) (hr : ∀ a b, 0 ≤ r a b) (a b : ℕ) : 0 ≤ wUpdate d u w r a b := by
+    (hA : ∀ e < d.E, 0 ≤ d.A e) (a b : ℕ) : 0 ≤ wUpdate d u w r a b := by
   unfold wUpdate
-  rw [wNum_eq, wDen_eq]
-  apply div_nonneg
-  · exact mul_nonneg (hw a b) (Finset.sum_nonneg fun e he =>
-      mul_nonneg (mult_nonneg d u w hu hw hA e (mem_range.mp he)) (chat_nonneg u hu _ _ _))
-  · exact add_nonneg (chat_nonneg u hu _ _ _) (hr a b)
+  rw [wNum_eq]
+  apply safeDiv_nonneg
+  exact mul_nonneg (hw a b) (Finset.sum_nonneg fun e he =>
+    mul_nonneg (mult_nonneg d u w hu hw hA e (mem_range.mp he)) (chat_nonneg u hu _ _ _))
 
 theorem wNum_symm (d : Data) (u w : Mat) (a b : ℕ) (h : w a b = w b a) :
     wNum d u w a b = wNum d u w b a := by
@@ -126,7 +167,24 @@ theorem wUpdate_symm (d : Data) (u w r : Mat) (a b : ℕ) (hw : w a b = w b a) (
 
 theorem wUpdate_zero (d : Data) (u w r : Mat) (a b : ℕ) (hw : w a b = 0) : wUpdate d u w r a b = 0 := by
   unfold wUpdate wNum
-  rw [hw]; simp
+  rw [hw]; simp [safeDiv_zero_left]
+
+/-- **the branch of the repair**: where the denominator of `_w_update` is not positive (`u, r ≥ 0`: it is 0, no two
+different nodes carry the communities `a` and `b`) the numerator vanishes as well - the entry was `0 / 0`, it does
+not occur in any Poisson parameter (`poisson_lin`: its coefficients `ĉ` are 0), and the update sets it to 0 -/
+theorem wNum_zero_of_den (d : Data) (u w r : Mat) (hu : ∀ i a, 0 ≤ u i a) (hr : ∀ a b, 0 ≤ r a b) (a b : ℕ)
+    (h : ¬ 0 < wDen d.N u a b + r a b) :
+    wNum d u w a b = 0 ∧ (∀ e, chat u (nodesOf d.N (d.edge e)) a b = 0) ∧ r a b = 0 := by
+  rw [wDen_eq] at h
+  have h0 : chat u (range d.N) a b = 0 := by
+    have := chat_nonneg u hu (range d.N) a b; have := hr a b; linarith [not_lt.mp h]
+  have hr0 : r a b = 0 := by
+    have := chat_nonneg u hu (range d.N) a b; have := hr a b; linarith [not_lt.mp h]
+  have hc : ∀ e, chat u (nodesOf d.N (d.edge e)) a b = 0 := fun e =>
+    le_antisymm (h0 ▸ chat_mono u hu _ _ (nodesOf_subset _ _) a b) (chat_nonneg u hu _ a b)
+  refine ⟨?_, hc, hr0⟩
+  rw [wNum_eq]
+  simp [hc]
 
 theorem allTo_iff (n : ℕ) (p : ℕ → Bool) : allTo n p = true ↔ ∀ i < n, p i = true := by
   simp [allTo]
@@ -174,10 +232,51 @@ theorem uDen_nonneg (d : Data) (u w : Mat) (hu : ∀ i a, 0 ≤ u i a) (hw : ∀
   exact mul_nonneg (hw c a) (by have := colSum_ge d.N u hu i hi c; linarith)
 
 theorem uUpdate_nonneg (d : Data) (u w r : Mat) (hu : ∀ i a, 0 ≤ u i a) (hw : ∀ a b, 0 ≤ w a b)
-    (hsym : ∀ a < d.K, ∀ b < d.K, w a b = w b a) (hA : ∀ e < d.E, 0 ≤ d.A e) (hr : ∀ i a, 0 ≤ r i a)
-    (i : ℕ) (hi : i < d.N) (a : ℕ) (ha : a < d.K) : 0 ≤ uUpdate d u w r i a := by
+    (hA : ∀ e < d.E, 0 ≤ d.A e) (i : ℕ) (hi : i < d.N) (a : ℕ) : 0 ≤ uUpdate d u w r i a := by
   unfold uUpdate
-  exact div_nonneg (uNum_nonneg d u w hu hw hA i hi a)
-    (add_nonneg (uDen_nonneg d u w hu hw hsym i hi a ha) (hr i a))
+  exact safeDiv_nonneg _ _ (uNum_nonneg d u w hu hw hA i hi a)
+
+theorem edgeSum_le_colSum (N : ℕ) (u : Mat) (hu : ∀ i a, 0 ≤ u i a) (e : List ℕ) (c : ℕ) :
+    edgeSum N u e c ≤ colSum N u c := by
+  rw [edgeSum_eq, colSum_eq]
+  exact Finset.sum_le_sum_of_subset_of_nonneg (nodesOf_subset N e) fun j _ _ => hu j c
+
+/-- **the branch of the repair in `_u_update`**: where the denominator is not positive (`u, w, r ≥ 0`, `w` symmetric: it
+is 0 - community `a` has no affinity with the memberships of the nodes other than `i`) the numerator vanishes as
+well: the entry was `0 / 0` and the update sets it to 0 -/
+theorem uNum_zero_of_den (d : Data) (u w r : Mat) (hu : ∀ i a, 0 ≤ u i a) (hw : ∀ a b, 0 ≤ w a b)
+    (hsym : ∀ a < d.K, ∀ b < d.K, w a b = w b a) (hr : ∀ i a, 0 ≤ r i a)
+    (i : ℕ) (hi : i < d.N) (a : ℕ) (ha : a < d.K) (h : ¬ 0 < uDen d u w i a + r i a) : uNum d u w i a = 0 := by
+  have hden : uDen d u w i a = 0 := by
+    have := uDen_nonneg d u w hu hw hsym i hi a ha; have := hr i a; linarith [not_lt.mp h]
+  -- every summand `w_ca (Σ_j u_jc − u_ic)` of the denominator vanishes
+  have hterm : ∀ c ∈ range d.K, w c a * (colSum d.N u c - u i c) = 0 := by
+    have hnn : ∀ c ∈ range d.K, 0 ≤ w c a * (colSum d.N u c - u i c) := fun c _ =>
+      mul_nonneg (hw c a) (by have := colSum_ge d.N u hu i hi c; linarith)
+    have hsum : ∑ c ∈ range d.K, w c a * (colSum d.N u c - u i c) = 0 := by
+      rw [← hden]; unfold uDen
+      simp only [sumTo_eq]
+      rw [← Finset.sum_sub_distrib]
+      apply Finset.sum_congr rfl; intro c hc
+      rw [hsym a ha c (mem_range.mp hc)]; ring
+    exact (Finset.sum_eq_zero_iff_of_nonneg hnn).mp hsum
+  unfold uNum
+  simp only [sumTo_eq]
+  apply mul_eq_zero_of_right
+  apply Finset.sum_eq_zero; intro c hc
+  rcases mul_eq_zero.mp (hterm c hc) with h0 | h0
+  · rw [h0, mul_zero]
+  · apply mul_eq_zero_of_left
+    rw [Finset.sum_mul, ← Finset.sum_sub_distrib]
+    apply Finset.sum_eq_zero; intro e _
+    rw [← mul_sub]
+    unfold weighting inc
+    split
+    · rename_i hie
+      have h1 := edgeSum_ge d.N u hu (d.edge e) i hi hie c
+      have h2 := edgeSum_le_colSum d.N u hu (d.edge e) c
+      have : edgeSum d.N u (d.edge e) c - u i c = 0 := by linarith
+      rw [this, mul_zero]
+    · simp
 
 end C15
